@@ -63,8 +63,15 @@ Tokens   == {"t1"}            \* tokens the server may issue; "tX" is never issu
 TTL      == 1
 MaxClock == 1
 
-Methods   == {"GET", "POST", "PUT", "DELETE"}
-Mutating  == {"POST", "PUT", "DELETE"}             \* control.go modifiesData
+\* Method tokens.  net/http passes the token of the request line through as it
+\* is, so next to the four canonical methods a request may carry the route's
+\* declared method SPELLED differently: all lower case ("post") or mixed case
+\* ("Post", "gET").  These are other tokens than the declared method ("accept
+\* only their declared method"); for a route without a declared method the
+\* harness spells GET.
+MisSpelled == {"declLower", "declMixed"}
+Methods    == {"GET", "POST", "PUT", "DELETE"} \cup MisSpelled
+Mutating   == {"POST", "PUT", "DELETE"}             \* control.go modifiesData
 CTypes    == {"none", "json", "form"}
 Cookies   == {"none", "tX"} \cup Tokens
 Basics    == {"none", "wrong", "right"}
@@ -231,8 +238,10 @@ Bad(q, o) == {n \in {"NoUnauthenticatedHandler", "MutatingNeedsMethodAndJSON",
 \* ------------------------------------------------------------- behaviour
 \* The shapes explored.  For the two spellings that today's ServeMux answers
 \* itself (301 to the cleaned path, before any route is consulted) content type
-\* and body are not varied.
-Shape(q) == q.spelling \in {"dotSegment", "doubleSlash"} => q.ctype = "none" /\ ~q.body
+\* and body are not varied; mis-spelled method tokens are sent to the canonical
+\* path only.
+Shape(q) == /\ q.spelling \in {"dotSegment", "doubleSlash"} => q.ctype = "none" /\ ~q.body
+            /\ q.method \in MisSpelled => q.spelling = "canonical"   \* one dimension at a time
 Requests == {q \in [method : Methods, ctype : CTypes, body : BOOLEAN, cookie : Cookies,
                     basic : Basics, spelling : Spellings] : Shape(q)}
 
@@ -285,7 +294,7 @@ Focus(r) == /\ focus = None /\ focus' = r
 \* cookie is reported by class; the classes present depend on the state.
 Table(r, t, m, sp) ==
     [x \in {y \in {<<ct, b, ck, ba>> : ct \in CTypes, b \in BOOLEAN, ck \in Cookies, ba \in Basics} :
-                Shape([ctype |-> y[1], body |-> y[2], spelling |-> sp])} |->
+                Shape([ctype |-> y[1], body |-> y[2], spelling |-> sp, method |-> m])} |->
         LET q == [method |-> m, ctype |-> x[1], body |-> x[2], cookie |-> x[3], basic |-> x[4],
                   spelling |-> sp]
         IN {<<x[1], x[2], CookieClass(x[3]), x[4],
